@@ -244,10 +244,13 @@ func shape(stream []srec) string {
 }
 
 func runC15(t *testing.T, run *mc.Run) int {
-	nev := 2
+	// three kernel events in flight in both tiers; quick injects faults into every 25th shape only
+	nev := 3
+	faultEvery := 25
 	if run.Thorough() {
-		nev = 3
+		faultEvery = 1
 	}
+	shapeNo := 0
 	if run.Replay != "" {
 		fmt.Println("replay: re-run `bin/check C15 thorough`; the case is identified by its key (stream shape, fault, position)")
 		return 0
@@ -278,6 +281,10 @@ func runC15(t *testing.T, run *mc.Run) int {
 		n++
 		if m := runStream(t, evs, stream, -1, "", 0, ""); m != "" {
 			viol("grouping:"+strings.Join(strings.Fields(m)[:2], "_"), stream, "no fault", m)
+		}
+		shapeNo++
+		if shapeNo%faultEvery != 0 {
+			return
 		}
 		// a malformed line at every position; an empty line at every position
 		for pos := 0; pos <= len(stream); pos++ {
@@ -341,7 +348,7 @@ func runC15(t *testing.T, run *mc.Run) int {
 	})
 	run.Note("observation, not judged (the statement speaks of non-empty lines): a blank record delivered as \"\\n\": %s", short(blank, 160))
 	cov := mc.Coverage{Level: "model_checking", States: len(shapes), Transitions: n, Traces: n, Evaluations: n, Distinct: interleaved, Exhaustive: complete, Samples: samples,
-		Rule:  fmt.Sprintf("every merge of the record sequences of %d kernel events (5-record SYSCALL group, simple record, 4-record SYSCALL group ending in EOE) that keeps each event's internal order, x {no fault; each of 6 malformed line shapes at every position; output write failing at the k-th write for every k; 3 kinds of invalid login at every position}, delivered line by line to the real Auditd.Read in a synctest bubble ('does not return' = durably blocked). states = distinct stream shapes; distinct_nontrivial = shapes in which records of different kernel events interleave", nev),
+		Rule:  fmt.Sprintf("every merge of the record sequences of %d kernel events (5-record SYSCALL group, simple record, 4-record SYSCALL group ending in EOE) that keeps each event's internal order, x {no fault (every merge); for every merge (thorough) / every 25th merge (quick): each of 6 malformed line shapes at every position; output write failing at the k-th write for every k; 3 kinds of invalid login at every position}, delivered line by line to the real Auditd.Read in a synctest bubble ('does not return' = durably blocked). states = distinct stream shapes; distinct_nontrivial = shapes in which records of different kernel events interleave", nev),
 		Extra: map[string]any{"kernel_events": nev, "stream_shapes": len(shapes), "malformed_shapes": len(malformed)}}
 	cov.Assumptions = []string{"testing/synctest durable-blocking semantics and virtual clock", "events are observed through the real tracker with the session bound, i.e. at the output writer"}
 	return run.Finish(cov)
